@@ -14,8 +14,11 @@ from vlib import Check, zlit, coq_bool, optz
 
 
 def k_term(keys, i):
-    k = keys[i]
-    return "(mkKey %d %d %s)" % (k["id"], k["size"], optz(k["tab"]))
+    return "k%d" % keys[i]["id"]      # let-bound at the head of the case term
+
+
+def k_defs(keys):
+    return "".join("let k%d := mkKey %d %d %s in " % (k["id"], k["id"], k["size"], optz(k["tab"])) for k in keys)
 
 
 def v_term(v):
@@ -67,7 +70,7 @@ def render_case(h):
         ops.append(a)
         ents = "; ".join("EO %d %d %d %d %s" % (e[0], e[1], e[2], e[3], optz(e[4])) for e in o["ents"])
         obs.append("(%s, (%d, %d, %d, [%s]))" % (b, o["used"], o["len"], o["lim"], ents))
-    return "C40 %d %s\n [%s]\n [%s]" % (h["limit"], optz(h["ttl"]), ";\n  ".join(ops), ";\n  ".join(obs))
+    return "(%sC40 %d %s\n [%s]\n [%s])" % (k_defs(keys), h["limit"], optz(h["ttl"]), ";\n  ".join(ops), ";\n  ".join(obs))
 
 
 def slim(h, upto=None):
@@ -106,7 +109,7 @@ def run(pid, tier, seed, replay):
             ck.log("replaying seed=%d tier=%s from %s" % (seed, tier, replay))
         except Exception as e:  # the generator is deterministic in (seed, tier)
             ck.log("could not read replay file (%s); running seed=%d" % (e, seed))
-    n = 400 if tier == "quick" else 8000
+    n = 300 if tier == "quick" else 6000
     # ---- proofs
     ck.proof_step(extra_targets=["Model/LruCache.vo"])
     # ---- build + run the implementation
